@@ -731,6 +731,8 @@ STATE_SPECS = {
             # translated in Gen/PyDescriptors.lean
             'ElementDescriptor': {'attrs': {'id': 'int', 'X': 'int', 'unit': 'str', 'nbits': 'int', 'scale': 'int', 'refval': 'int'},
                                   'doc': 'X is the property translated in Gen/PyDescriptors.lean'},
+            # any descriptor, as `process_bitmap_definition` sees it
+            'AnyDescriptor': {'attrs': {'id': 'int'}},
         },
         'methods': [
             ('CoderState', 'reset_template_state', {'self': 'rec:CoderState', 'mutates': ['self']}),
@@ -750,6 +752,11 @@ STATE_SPECS = {
                     'process_constant': {'args': _OPD_ARGS + ['int'], 'mutates': [0, 1]},
                     'process_marker_operator_descriptor': {'args': _OPD_ARGS, 'mutates': [0, 1]},
                 }}),
+            ('Coder', 'process_bitmap_definition', {
+                'self': 'callbacks',
+                'params': {'state': 'rec:CoderState', 'bit_operator': 'opaque:BitOperator', 'descriptor': 'rec:AnyDescriptor'},
+                'mutates': ['state'],
+                'callbacks': {'define_bitmap': {'args': ['rec:CoderState', 'bool'], 'mutates': [0]}}}),
             ('Coder', 'process_element_descriptor', {
                 'self': 'callbacks', 'split': True,
                 'params': {'state': 'rec:CoderState', 'bit_operator': 'opaque:BitOperator', 'descriptor': 'rec:ElementDescriptor'},
